@@ -302,7 +302,7 @@ Definition enc (r : eres) : list string :=
 
 
 def model(mgs):
-    out = vlib.coq_eval_value("c13", HDR, "[%s]" % "; ".join(m.coq() for m in mgs), timeout=900)
+    out = vlib.coq_eval_value("c13", HDR, "[%s]" % "; ".join(m.coq() for m in mgs), timeout=2400)
     # a list of lists of Coq string literals
     rows, depth, cur, i = [], 0, None, 0
     while i < len(out):
